@@ -53,6 +53,47 @@ def _returned_expr(fn):
     return source.inline_node(rets[0].value, local_defs(fn))
 
 
+def _record_classes(drv):
+    """{class name: [(field, default expression or None)]} for the tuple-like record classes of the module: `class X(NamedTuple)` with its annotated fields,
+    `X = namedtuple("X", "a b c" | ["a", ...])`, `X = NamedTuple("X", [("a", T), ...])`. An instance of such a class IS the tuple of its fields in declaration order (it unpacks,
+    compares and hashes like that tuple), so a construction `X(...)` denotes that tuple whatever mix of positional and keyword arguments spells it. A dataclass is not a tuple and
+    is not listed."""
+    out = {}
+    for c in drv.classes():
+        if any((dotted(b) or "").split(".")[-1] == "NamedTuple" for b in c.bases):
+            fields = []
+            for st in c.body:
+                if isinstance(st, ast.AnnAssign) and isinstance(st.target, ast.Name):
+                    fields.append((st.target.id, st.value))
+                elif isinstance(st, ast.Assign) and len(st.targets) == 1 and isinstance(st.targets[0], ast.Name) and not st.targets[0].id.startswith("_"):
+                    fields.append((st.targets[0].id, st.value))  # N7 has turned `x: T = default` into an assignment
+            if fields:
+                out[c.name] = fields
+    for st in drv.tree.body:
+        if isinstance(st, ast.Assign) and len(st.targets) == 1 and isinstance(st.targets[0], ast.Name) and isinstance(st.value, ast.Call) and len(st.value.args) >= 2 \
+                and (dotted(st.value.func) or "").split(".")[-1] in ("namedtuple", "NamedTuple"):
+            spec, names = st.value.args[1], None
+            if isinstance(spec, ast.Constant) and isinstance(spec.value, str):
+                names = spec.value.replace(",", " ").split()
+            elif isinstance(spec, (ast.List, ast.Tuple)):
+                names = []
+                for x in spec.elts:
+                    if isinstance(x, (ast.Tuple, ast.List)) and x.elts:
+                        x = x.elts[0]
+                    names.append(x.value if isinstance(x, ast.Constant) and isinstance(x.value, str) else None)
+            if names and all(names):
+                fields = [(nm, None) for nm in names]
+                dfl = source.arg_of(st.value, None, "defaults")
+                if isinstance(dfl, (ast.List, ast.Tuple)) and len(dfl.elts) <= len(fields):
+                    for i, d in enumerate(dfl.elts):
+                        j = len(fields) - len(dfl.elts) + i
+                        fields[j] = (fields[j][0], d)
+                elif dfl is not None:
+                    continue
+                out[st.targets[0].id] = fields
+    return out
+
+
 class _Helpers:
     """methods of one class plus the module-level functions: what `self.m(...)`, `cls.m(...)`, `<Class>.m(...)` and `f(...)` resolve to."""
 
@@ -60,6 +101,24 @@ class _Helpers:
         self.cls = cls
         self.methods = drv.methods(cls)
         self.funcs = {n.name: n for n in drv.tree.body if isinstance(n, source.FUNC_TYPES)}
+        self.records = _record_classes(drv)
+        self.state_methods = {}  # methods of the per-task state class (set by the rule once the class is known): `<local>.m(...)` with an expression helper m is inlined too
+
+    def record_tuple(self, call):
+        """the tuple a construction of a tuple-like record class (NamedTuple) denotes: its arguments in the declaration order of the fields; None if `call` is not such a
+        construction or its arguments cannot be bound."""
+        fields = self.records.get(last_attr(call.func)) if dotted(call.func) is not None else None
+        if not fields or any(isinstance(a_, ast.Starred) for a_ in call.args) or any(k.arg is None for k in call.keywords) or len(call.args) > len(fields):
+            return None
+        vals = {nm: a_ for (nm, _), a_ in zip(fields, call.args)}
+        for k in call.keywords:
+            if k.arg in vals or k.arg not in dict(fields):
+                return None
+            vals[k.arg] = k.value
+        elts = [vals.get(nm, d) for nm, d in fields]
+        if any(x is None for x in elts):
+            return None
+        return ast.Tuple(elts=[source.clone(x) for x in elts], ctx=ast.Load())
 
     def callee(self, call):
         f = call.func
@@ -78,13 +137,28 @@ class _Helpers:
         class T(ast.NodeTransformer):
             def visit_Call(self, n):
                 self.generic_visit(n)
+                rec = H.record_tuple(n)
+                if rec is not None:
+                    return rec
                 fn = H.callee(n)
+                recv = None
+                if fn is None and isinstance(n.func, ast.Attribute) and isinstance(n.func.value, ast.Name) and n.func.value.id not in ("self", "cls") and n.func.attr in H.state_methods \
+                        and (n.args or n.keywords):
+                    # an expression helper of the state class that takes arguments (e.g. builds the emitted tuple from a sample): `self` is the receiver
+                    fn = H.state_methods[n.func.attr]
+                    recv = n.func.value if params_of(fn) and params_of(fn)[0] == "self" and not fn.decorator_list else None
+                    if recv is None:
+                        return n
                 if fn is None or depth > 3:
                     return n
                 rex = _returned_expr(fn)
                 if rex is None:
                     return n
                 m = dict(source.bind_args(n, fn))
+                if recv is not None:
+                    if any(isinstance(x, ast.Name) and x.id == "self" and not isinstance(x.ctx, ast.Load) for x in ast.walk(rex)):
+                        return n
+                    m["self"] = recv
                 names = [p for p in params_of(fn) if p not in ("self", "cls")]
                 dflt = fn.args.defaults
                 for p, dv in zip(names[len(names) - len(dflt):], dflt):
@@ -153,10 +227,55 @@ class _Ret(Exception):
         self.v = v
 
 
+class _Jump(Exception):
+    """break / continue of an interpreted loop."""
+
+    def __init__(self, kind):
+        self.kind = kind
+
+
+class _Iter:
+    """A single-use iterator over known elements (itertools.chain, heapq.merge, iter(...), reversed(...)): its sources are read when it is consumed (a source emptied in between
+    contributes nothing), consuming it leaves it empty, and - like the real thing - it is always truthy."""
+
+    def __init__(self, sources, combine=None):
+        self.sources = list(sources)
+        self.combine = combine
+
+    def take(self):
+        lists = [_elements(x) for x in self.sources]
+        self.sources = []
+        out = self.combine(lists) if self.combine is not None else [x for l_ in lists for x in l_]
+        self.combine = None
+        return out
+
+
+def _elements(v):
+    """the elements of an iterable value as a list (a single-use iterator is consumed)."""
+    if isinstance(v, _Iter):
+        return v.take()
+    if isinstance(v, (list, tuple, set, frozenset, dict, range)):
+        return list(v)
+    raise CannotEval(f"iteration over a {type(v).__name__}")
+
+
+class _Fn:
+    """A function value: a lambda or nested def together with the environment it closes over, a module-level function, or a method bound to a modelled record."""
+
+    def __init__(self, node, env, rec=None):
+        self.node = node
+        self.env = env
+        self.rec = rec
+
+
 class _Model:
-    """Value-level model of a small class: its methods are interpreted statement by statement over a Record that stands for `self`. Supported: assignments to locals and to
-    attributes of the record, augmented assignments, if / return / pass, list append / clear / extend, calls of and property reads on the record itself; logging and docstrings
-    are skipped. Anything else raises CannotEval (the obligation is then 'not recognised', never a verdict)."""
+    """Value-level model of a small class: its methods are interpreted statement by statement over a Record that stands for `self`. Supported: assignments to locals, to
+    attributes of a record and to items of a dict / list, augmented assignments, if / for / break / continue / return / pass, nested defs and lambdas as values (sort keys),
+    list append / clear / extend / sort, dict items / values / keys / setdefault / get, sorted / list / tuple / iter / next / reversed, itertools.chain / groupby and heapq.merge as
+    single-use iterators, calls of and property reads on modelled records (each record is interpreted by the model it was created by), calls of module-level functions and of
+    stubs the rule installs; logging and docstrings are skipped. Anything else raises CannotEval (the obligation is then 'not recognised', never a verdict)."""
+
+    _ids = itertools.count(1)
 
     def __init__(self, cls, methods):
         self.cls = cls
@@ -164,6 +283,9 @@ class _Model:
         self.props = {n for n, f in methods.items() if any(dotted(d) in ("property", "functools.cached_property", "cached_property") for d in f.decorator_list)}
         self.dataclass = any((dotted(d.func if isinstance(d, ast.Call) else d) or "").split(".")[-1] == "dataclass" for d in cls.decorator_list)
         self.globals = {}  # module-level names the methods may read (e.g. an enum), as Records
+        self.funcs = {}  # module-level functions the methods may call: name -> FunctionDef
+        self.stubs = {}  # method name -> python function({parameter: value}) the rule installs instead of interpreting the method
+        self.record_tuple = None  # function(call node) -> ast.Tuple for constructions of tuple-like record classes (NamedTuple), set by the rule
         self._depth = 0
 
     # -- construction ---------------------------------------------------------------------------------------------------------------
@@ -218,6 +340,7 @@ class _Model:
     def new(self, values, default=1):
         """a fresh instance: constructor parameters take `values` (name -> value), every other parameter `default`."""
         rec = Record()
+        rec._model = self
         args = {p: values.get(p, default) for p in self.init_params()}
         if "__init__" in self.methods:
             self.call(rec, "__init__", **args)
@@ -252,22 +375,53 @@ class _Model:
         return minieval.ev(v, {})
 
     # -- evaluation -----------------------------------------------------------------------------------------------------------------------
+    @staticmethod
+    def model_of(rec, default):
+        return getattr(rec, "_model", None) or default
+
     def call(self, rec, name, *args, **kw):
         fn = self.methods.get(name)
         if fn is None:
             raise CannotEval(f"no method {name}")
-        names = [p for p in params_of(fn)][1:]
+        return self._invoke(fn, rec, args, kw, stub=self.stubs.get(name))
+
+    def apply(self, f, *args, **kw):
+        """call a function value."""
+        if not isinstance(f, _Fn):
+            if callable(f):
+                return f(*args, **kw)
+            raise CannotEval(f"call of a {type(f).__name__}")
+        if isinstance(f.node, ast.Lambda):
+            a = f.node.args
+            names = [x.arg for x in a.posonlyargs + a.args]
+            if a.vararg or a.kwarg or a.kwonlyargs or a.defaults or kw or len(names) != len(args):
+                raise CannotEval("lambda signature")
+            env = dict(f.env)
+            env.update(zip(names, args))
+            return self.ev(f.node.body, env)
+        return self._invoke(f.node, f.rec, args, kw, closure=f.env)
+
+    def _invoke(self, fn, rec, args, kw, closure=None, stub=None):
+        ps = params_of(fn)
+        static = rec is None or any(dotted(d) == "staticmethod" for d in fn.decorator_list)
+        names = ps if static else ps[1:]
         env = dict(self.globals)
-        if params_of(fn):
-            env[params_of(fn)[0]] = rec
-        env.update(zip(names, args))
-        env.update(kw)
+        env.update(closure or {})
+        if not static and ps:
+            env[ps[0]] = rec
+        if len(args) > len(names) or any(k_ not in names for k_ in kw) or fn.args.vararg or fn.args.kwarg:
+            raise CannotEval(f"{fn.name}: arguments do not fit the parameters")
+        given = dict(zip(names, args))
+        given.update(kw)
         dflt = fn.args.defaults
         for p, dv in zip(names[len(names) - len(dflt):], dflt):
-            if p not in env:
-                env[p] = minieval.ev(dv, {})
-        if any(p not in env for p in names):
-            raise CannotEval(f"{name}: unbound parameter")
+            if p not in given:
+                given[p] = minieval.ev(dv, {})
+        if any(p not in given for p in names):
+            raise CannotEval(f"{fn.name}: unbound parameter")
+        if stub is not None:
+            return stub(given)
+        env.update(given)
         self._depth += 1
         try:
             if self._depth > 6:
@@ -279,42 +433,236 @@ class _Model:
             self._depth -= 1
         return None
 
+    def fn_value(self, node, env):
+        """the function value an expression denotes (a sort key, a callback)."""
+        if isinstance(node, ast.Lambda):
+            return _Fn(node, env)
+        if isinstance(node, ast.Name):
+            if node.id in env:
+                v = env[node.id]
+                if isinstance(v, _Fn) or callable(v):
+                    return v
+            elif node.id in self.funcs:
+                return _Fn(self.funcs[node.id], {})
+        if isinstance(node, ast.Attribute) and node.attr in self.methods and (dotted(node.value) or "").split(".")[-1] in ("self", "cls", self.cls.name):
+            owner = env.get(dotted(node.value)) if isinstance(node.value, ast.Name) else None
+            return _Fn(self.methods[node.attr], {}, owner if isinstance(owner, Record) else None)
+        if isinstance(node, ast.Call) and (dotted(node.func) or "").split(".")[-1] == "attrgetter" and len(node.args) == 1 and not node.keywords \
+                and isinstance(node.args[0], ast.Constant) and isinstance(node.args[0].value, str) and "." not in node.args[0].value:
+            field = node.args[0].value
+
+            def getter(r):
+                if isinstance(r, Record) and field in r.fields:
+                    return r.fields[field]
+                raise CannotEval(f"attrgetter({field!r}) on {type(r).__name__}")
+
+            return getter
+        raise CannotEval(f"function value {u(node)[:60]}")
+
     def ev(self, e, env):
-        """minieval.ev plus: method calls / property reads on a modelled record, max / min of several arguments."""
+        """minieval.ev plus: short-circuit evaluation, method calls / property reads on modelled records, helper functions, the iterator and container vocabulary listed in the
+        class docstring, max / min of several arguments."""
         M = self
+        if isinstance(e, ast.IfExp):
+            return self.ev(e.body if self.ev(e.test, env) else e.orelse, env)
+        if isinstance(e, ast.BoolOp):
+            r = None
+            for v in e.values:
+                r = self.ev(v, env)
+                if bool(r) != isinstance(e.op, ast.And):
+                    return r
+            return r
         env2 = dict(env)
-        k = [0]
 
         def bound(v):
-            k[0] += 1
-            nm = f"_v{k[0]}_"
+            nm = f"_v{next(_Model._ids)}_"
             env2[nm] = v
             return ast.Name(id=nm, ctx=ast.Load())
 
+        def val(x):
+            return minieval.ev(x, env2)
+
+        def order(call, items):
+            """sort-order arguments (key=, reverse=) of sorted / list.sort / heapq.merge as python values."""
+            kf, rev = None, False
+            for k in call.keywords:
+                if k.arg == "key":
+                    if not (isinstance(k.value, ast.Constant) and k.value.value is None):
+                        f_ = M.fn_value(k.value, env2)
+                        kf = lambda x, f_=f_: M.apply(f_, x)  # noqa: E731
+                elif k.arg == "reverse":
+                    rev = bool(val(k.value))
+                else:
+                    raise CannotEval(f"keyword {k.arg} of {u(call.func)}")
+            if kf is None and any(isinstance(x, Record) for x in items):
+                raise CannotEval(f"{u(call)[:60]}: objects ordered without a key")
+            return kf, rev
+
         class T(ast.NodeTransformer):
+            def visit_Lambda(self, n):
+                return n
+
+            def visit_IfExp(self, n):
+                return bound(M.ev(n, env2))
+
+            visit_BoolOp = visit_IfExp
+
+            def visit_List(self, n):
+                self.generic_visit(n)
+                if any(isinstance(x, ast.Starred) for x in n.elts):
+                    out = []
+                    for x in n.elts:
+                        out += _elements(val(x.value)) if isinstance(x, ast.Starred) else [val(x)]
+                    return bound(out)
+                return n
+
+            def visit_Tuple(self, n):
+                self.generic_visit(n)
+                if isinstance(n.ctx, ast.Load) and any(isinstance(x, ast.Starred) for x in n.elts):
+                    out = []
+                    for x in n.elts:
+                        out += _elements(val(x.value)) if isinstance(x, ast.Starred) else [val(x)]
+                    return bound(tuple(out))
+                return n
+
             def visit_Call(self, n):
                 f = n.func
-                if isinstance(f, ast.Attribute) and isinstance(f.value, ast.Name) and isinstance(env2.get(f.value.id), Record) and f.attr in M.methods and f.attr not in env2[f.value.id].fields:
-                    args = [minieval.ev(T().visit(a_), env2) for a_ in n.args]
-                    kws = {kk.arg: minieval.ev(T().visit(kk.value), env2) for kk in n.keywords if kk.arg}
-                    return bound(M.call(env2[f.value.id], f.attr, *args, **kws))
-                self.generic_visit(n)
-                if dotted(f) in ("max", "min") and len(n.args) >= 2 and not n.keywords:
+                for i, a_ in enumerate(n.args):
+                    n.args[i] = self.visit(a_)
+                for k in n.keywords:
+                    if k.arg != "key":
+                        k.value = self.visit(k.value)
+                if isinstance(f, ast.Attribute):
+                    f.value = self.visit(f.value)
+                d = dotted(f) or ""
+                plain = not n.keywords and not any(isinstance(a_, ast.Starred) for a_ in n.args)
+                # ---- calls of functions of the analysed module
+                if isinstance(f, ast.Name) and isinstance(env2.get(f.id), _Fn) and not any(isinstance(a_, ast.Starred) for a_ in n.args):
+                    return bound(M.apply(env2[f.id], *[val(a_) for a_ in n.args], **{k.arg: val(k.value) for k in n.keywords if k.arg}))
+                if isinstance(f, ast.Name) and f.id not in env2 and f.id in M.funcs and not any(isinstance(a_, ast.Starred) for a_ in n.args):
+                    return bound(M._invoke(M.funcs[f.id], None, [val(a_) for a_ in n.args], {k.arg: val(k.value) for k in n.keywords if k.arg}))
+                if isinstance(f, ast.Attribute) and not any(isinstance(a_, ast.Starred) for a_ in n.args):
+                    if d.split(".")[-2:-1] == [M.cls.name] and f.attr in M.methods and isinstance(f.value, (ast.Name, ast.Attribute)) and d.split(".")[0] not in env2:
+                        return bound(M._invoke(M.methods[f.attr], None, [val(a_) for a_ in n.args], {k.arg: val(k.value) for k in n.keywords if k.arg}, stub=M.stubs.get(f.attr)))
+                    try:
+                        recv = val(f.value)
+                    except CannotEval:
+                        recv = _NOTHING
+                    if isinstance(recv, Record) and f.attr not in recv.fields:
+                        Mx = M.model_of(recv, M)
+                        if f.attr in Mx.methods:
+                            return bound(Mx.call(recv, f.attr, *[val(a_) for a_ in n.args], **{k.arg: val(k.value) for k in n.keywords if k.arg}))
+                    if isinstance(recv, dict) and plain:
+                        if f.attr in ("items", "values", "keys") and not n.args:
+                            return bound([tuple(x) if f.attr == "items" else x for x in getattr(recv, f.attr)()])
+                        if f.attr == "setdefault" and len(n.args) == 2:
+                            return bound(recv.setdefault(val(n.args[0]), val(n.args[1])))
+                        if f.attr == "copy" and not n.args:
+                            return bound(recv.copy())
+                    if isinstance(recv, list) and plain and f.attr == "copy" and not n.args:
+                        return bound(list(recv))
+                if M.record_tuple is not None and not any(isinstance(a_, ast.Starred) for a_ in n.args):
+                    t_ = M.record_tuple(n)
+                    if t_ is not None:
+                        return bound(val(t_))
+                # ---- iterators and containers
+                if d in ("itertools.chain", "chain") and plain:
+                    return bound(_Iter([val(a_) for a_ in n.args]))
+                if d in ("itertools.chain.from_iterable", "chain.from_iterable") and plain and len(n.args) == 1:
+                    return bound(_Iter(_elements(val(n.args[0]))))
+                if d in ("heapq.merge", "merge") and not any(isinstance(a_, ast.Starred) for a_ in n.args):
+                    srcs = [val(a_) for a_ in n.args]
+                    kf, rev = order(n, [x for s_ in srcs if isinstance(s_, (list, tuple)) for x in s_])
+                    import heapq
+                    return bound(_Iter(srcs, combine=lambda lists, kf=kf, rev=rev: list(heapq.merge(*lists, key=kf, reverse=rev))))
+                if d == "sorted" and len(n.args) == 1 and not isinstance(n.args[0], ast.Starred):
+                    items = _elements(val(n.args[0]))
+                    kf, rev = order(n, items)
+                    try:
+                        return bound(sorted(items, key=kf, reverse=rev))
+                    except TypeError as x:
+                        raise CannotEval(f"{u(n)[:60]}: {x}")
+                if d in ("list", "tuple") and plain and len(n.args) == 1:
+                    v = val(n.args[0])
+                    if isinstance(v, (_Iter, list, tuple, dict, set, frozenset, range)):
+                        return bound(_elements(v) if d == "list" else tuple(_elements(v)))
+                if d in ("list", "dict", "set") and plain and not n.args:
+                    return bound({"list": list, "dict": dict, "set": set}[d]())
+                if d in ("collections.defaultdict", "defaultdict") and plain and len(n.args) == 1 and dotted(n.args[0]) in ("list", "dict", "set", "int"):
+                    import collections
+                    return bound(collections.defaultdict({"list": list, "dict": dict, "set": set, "int": int}[dotted(n.args[0])]))
+                if d == "enumerate" and len(n.args) == 1 and not isinstance(n.args[0], ast.Starred) and all(k.arg == "start" for k in n.keywords):
+                    start = val(n.keywords[0].value) if n.keywords else 0
+                    if not isinstance(start, int):
+                        raise CannotEval(f"{u(n)[:60]}: start")
+                    return bound([(start + i_, x) for i_, x in enumerate(_elements(val(n.args[0])))])
+                if d == "zip" and plain and n.args:
+                    return bound([tuple(x) for x in zip(*[_elements(val(a_)) for a_ in n.args])])
+                if d == "range" and plain and 1 <= len(n.args) <= 3:
+                    vs = [val(a_) for a_ in n.args]
+                    if all(isinstance(x, int) and not isinstance(x, bool) for x in vs) and (len(vs) < 3 or vs[2] != 0):
+                        return bound(list(range(*vs)))
+                if d == "iter" and plain and len(n.args) == 1:
+                    v = val(n.args[0])
+                    return bound(v if isinstance(v, _Iter) else _Iter([v]))
+                if d == "reversed" and plain and len(n.args) == 1:
+                    return bound(_Iter([list(reversed(_elements(val(n.args[0]))))]))
+                if d == "next" and plain and len(n.args) in (1, 2):
+                    v = val(n.args[0])
+                    if isinstance(v, _Iter):
+                        items = v.take()
+                        v.sources = [items[1:]]
+                        if items:
+                            return bound(items[0])
+                        if len(n.args) == 2:
+                            return bound(val(n.args[1]))
+                        raise CannotEval(f"{u(n)[:60]}: StopIteration")
+                if d in ("itertools.groupby", "groupby") and len(n.args) >= 1 and not isinstance(n.args[0], ast.Starred):
+                    items = _elements(val(n.args[0]))
+                    kn = source.arg_of(n, 1, "key")
+                    f_ = M.fn_value(kn, env2) if kn is not None and not (isinstance(kn, ast.Constant) and kn.value is None) else None
+                    return bound([(k_, _Iter([list(g_)])) for k_, g_ in itertools.groupby(items, key=(lambda x: M.apply(f_, x)) if f_ is not None else None)])
+                if d in ("max", "min") and len(n.args) >= 2 and not n.keywords:
                     return ast.Call(func=f, args=[ast.List(elts=list(n.args), ctx=ast.Load())], keywords=[])
-                if dotted(f) in ("math.floor", "math.ceil", "math.trunc") and len(n.args) == 1 and not n.keywords:
+                if d in ("math.floor", "math.ceil", "math.trunc") and len(n.args) == 1 and not n.keywords:
                     import math
-                    v = minieval.ev(n.args[0], env2)
+                    v = val(n.args[0])
                     if isinstance(v, (int, float)) and not isinstance(v, bool):
                         return bound(getattr(math, f.attr)(v))
+                for k in n.keywords:
+                    if k.arg == "key":
+                        k.value = self.visit(k.value)
+                return n
+
+            def visit_Subscript(self, n):
+                self.generic_visit(n)
+                if isinstance(n.ctx, ast.Load) and isinstance(n.slice, ast.Slice):
+                    recv = val(n.value)
+                    lo, hi, st = [None if x is None else val(x) for x in (n.slice.lower, n.slice.upper, n.slice.step)]
+                    if isinstance(recv, (list, tuple, str)) and all(x is None or (isinstance(x, int) and not isinstance(x, bool)) for x in (lo, hi, st)) and st != 0:
+                        return bound(recv[lo:hi:st])
+                    raise CannotEval(f"slice {u(n)[:60]}")
                 return n
 
             def visit_Attribute(self, n):
                 self.generic_visit(n)
-                if isinstance(n.ctx, ast.Load) and isinstance(n.value, ast.Name) and isinstance(env2.get(n.value.id), Record) and n.attr in M.props and n.attr not in env2[n.value.id].fields:
-                    return bound(M.call(env2[n.value.id], n.attr))
+                if isinstance(n.ctx, ast.Load):
+                    try:
+                        recv = val(n.value)
+                    except CannotEval:
+                        return n
+                    if isinstance(recv, Record) and n.attr not in recv.fields:
+                        Mx = M.model_of(recv, M)
+                        if n.attr in Mx.props:
+                            return bound(Mx.call(recv, n.attr))
                 return n
 
-        return minieval.ev(T().visit(source.clone(e)), env2)
+        try:
+            return minieval.ev(T().visit(source.clone(e)), env2)
+        finally:
+            for n in ast.walk(e):
+                if isinstance(n, ast.NamedExpr) and isinstance(n.target, ast.Name) and n.target.id in env2:
+                    env[n.target.id] = env2[n.target.id]
 
     def _store(self, t, val, env):
         if isinstance(t, ast.Name):
@@ -324,7 +672,15 @@ class _Model:
             if not isinstance(recv, Record):
                 raise CannotEval(f"store to {u(t)}")
             recv.fields[t.attr] = val
-        elif isinstance(t, (ast.Tuple, ast.List)) and isinstance(val, (list, tuple)) and len(val) == len(t.elts):
+        elif isinstance(t, ast.Subscript) and not isinstance(t.slice, ast.Slice):
+            recv = self.ev(t.value, env)
+            if not isinstance(recv, (dict, list)):
+                raise CannotEval(f"store to {u(t)}")
+            try:
+                recv[self.ev(t.slice, env)] = val
+            except (IndexError, TypeError) as x:
+                raise CannotEval(f"store to {u(t)}: {type(x).__name__}")
+        elif isinstance(t, (ast.Tuple, ast.List)) and isinstance(val, (list, tuple)) and len(val) == len(t.elts) and not any(isinstance(x, ast.Starred) for x in t.elts):
             for x, v in zip(t.elts, val):
                 self._store(x, v, env)
         else:
@@ -339,7 +695,16 @@ class _Model:
                 if isinstance(v, ast.Call) and isinstance(v.func, ast.Attribute) and v.func.attr in ("append", "clear", "extend") and not v.keywords:
                     recv = self.ev(v.func.value, env)
                     if isinstance(recv, list):
-                        getattr(recv, v.func.attr)(*[self.ev(a_, env) for a_ in v.args])
+                        args = [self.ev(a_, env) for a_ in v.args]
+                        getattr(recv, v.func.attr)(*[_elements(a_) if v.func.attr == "extend" else a_ for a_ in args])
+                        continue
+                if isinstance(v, ast.Call) and isinstance(v.func, ast.Attribute) and v.func.attr == "sort" and not v.args:
+                    recv = self.ev(v.func.value, env)
+                    if isinstance(recv, list):
+                        # the same order arguments as sorted(): evaluate `sorted(<list>, ...)` and store the result in place
+                        env_ = dict(env)
+                        env_["_sorted_in_place_"] = recv
+                        recv[:] = self.ev(ast.Call(func=ast.Name(id="sorted", ctx=ast.Load()), args=[ast.Name(id="_sorted_in_place_", ctx=ast.Load())], keywords=v.keywords), env_)
                         continue
                 self.ev(v, env)
             elif isinstance(s, ast.Assign):
@@ -351,6 +716,31 @@ class _Model:
                 self._store(s.target, self.ev(ast.BinOp(left=load, op=s.op, right=s.value), env), env)
             elif isinstance(s, ast.If):
                 self.run(s.body if self.ev(s.test, env) else s.orelse, env)
+            elif isinstance(s, ast.For):
+                broke = False
+                for item in _elements(self.ev(s.iter, env)):
+                    self._store(s.target, item, env)
+                    try:
+                        self.run(s.body, env)
+                    except _Jump as j:
+                        if j.kind == "break":
+                            broke = True
+                            break
+                if not broke:
+                    self.run(s.orelse, env)
+            elif isinstance(s, (ast.Break, ast.Continue)):
+                raise _Jump("break" if isinstance(s, ast.Break) else "continue")
+            elif isinstance(s, source.FUNC_TYPES) and isinstance(s, ast.FunctionDef) and not s.decorator_list:
+                env[s.name] = _Fn(s, env)
+            elif isinstance(s, ast.Delete) and all(isinstance(t, ast.Subscript) and not isinstance(t.slice, ast.Slice) for t in s.targets):
+                for t in s.targets:
+                    recv = self.ev(t.value, env)
+                    if not isinstance(recv, (dict, list)):
+                        raise CannotEval(f"del {u(t)}")
+                    try:
+                        del recv[self.ev(t.slice, env)]
+                    except (KeyError, IndexError, TypeError) as x:
+                        raise CannotEval(f"del {u(t)}: {type(x).__name__}")
             elif isinstance(s, ast.Return):
                 raise _Ret(None if s.value is None else self.ev(s.value, env))
             elif isinstance(s, ast.Pass):
@@ -416,6 +806,17 @@ def _state_roles(drv, tm):
     return found[0]
 
 
+def _denotes_state(e, scope, A):
+    """e denotes the task's state object in `scope`: self.A[k] / self.A.get(k) / self.A.setdefault(k, ..) or a local / walrus bound to one of those."""
+    if _state_expr(e, A) is not None:
+        return True
+    if isinstance(e, ast.Name):
+        vals = [n.value for n in ast.walk(scope) if isinstance(n, ast.NamedExpr) and isinstance(n.target, ast.Name) and n.target.id == e.id]
+        vals += [n.value for n in walk_body(scope) if isinstance(n, ast.Assign) and any(isinstance(t, ast.Name) and t.id == e.id for t in n.targets)]
+        return bool(vals) and all(_state_expr(v, A) is not None for v in vals)
+    return False
+
+
 def _returns_state(H, v, A):
     """v is a call of a helper every return of which hands out the task's entry of self.<A>."""
     fn = H.callee(v) if isinstance(v, ast.Call) else None
@@ -459,6 +860,13 @@ def _self_reads(fn):
     return {x.attr for x in ast.walk(fn) if is_self_attr(x) and isinstance(x.ctx, ast.Load)}
 
 
+class _Task(Record):
+    """stands for a task: hashable (by identity), has a name, prints as its name."""
+
+    def __repr__(self):
+        return str(self.fields.get("name"))
+
+
 class _Emit:
     """one place where a value (abs time, rel time, sample type, throughput, unit) is produced: `node` is the append / comprehension in the analysed function, `tup` the 5-tuple
     as a function of that function's names (locals and expression helpers resolved)."""
@@ -499,7 +907,9 @@ def _emits(H, func, keep=()):
 
 
 def _sample(**over):
-    f = dict(absolute_time=12.0, relative_time=2.0, time_period=0.5, total_ops=5, total_ops_unit="docs", sample_type=1, throughput=None, task="t", client_id=0)
+    f = dict(absolute_time=12.0, relative_time=2.0, time_period=0.5, total_ops=5, total_ops_unit="docs", sample_type=1, throughput=None, task="t", client_id=0,
+             request_start=11.5, task_start=10.0, latency=0.5, service_time=0.5, processing_time=0.5, percent_completed=None, operation_name="op", operation_type="bulk",
+             request_meta_data={}, dependent_timings=[])
     f.update(over)
     return Record(**f)
 
@@ -577,7 +987,11 @@ def _unit_value(unit, ts_text, others):
 # shared with C07 (O7.5)
 
 
-def lazy_batch_rule(chk, rid, drv):
+_LAZY_MERGE = ("itertools.chain", "chain", "heapq.merge", "merge")  # several sources read lazily into one single-use iterator
+_LAZY = _LAZY_MERGE + ("iter", "map", "filter", "zip", "reversed")
+
+
+def lazy_batch_rule(chk, rid, drv, decided=False):
     """ThroughputCalculator.calculate merges new and carried-over samples with a LAZY, single-use chain. Two necessary conditions (shared with C07: throughput is computed from
     all samples): (1) the only consumer of that iterator is the materialising sort / list; (2) between creating the chain and materialising it none of its sources is mutated
     (a `.clear()` on the carried-over list empties what the chain has not read yet)."""
@@ -592,10 +1006,10 @@ def lazy_batch_rule(chk, rid, drv):
         """a call that yields a single-use iterator: itertools.chain & co, or a helper of the calculator that returns one (extracted merge)."""
         if not isinstance(c, ast.Call):
             return False
-        if dotted(c.func) in ("itertools.chain", "chain", "iter", "map", "filter", "zip"):
+        if dotted(c.func) in _LAZY:
             return True
         h = tcm.get(c.func.attr) if isinstance(c.func, ast.Attribute) and dotted(c.func.value) in ("self", "cls", TC.name) else None
-        return h is not None and h is not calc and any(isinstance(r, ast.Return) and isinstance(r.value, ast.Call) and dotted(r.value.func) in ("itertools.chain", "chain") for r in walk_body(h))
+        return h is not None and h is not calc and any(isinstance(r, ast.Return) and isinstance(r.value, ast.Call) and dotted(r.value.func) in _LAZY_MERGE for r in walk_body(h))
 
     lazy_defs = [n for n in walk_body(calc) if isinstance(n, ast.Assign) and isinstance(n.targets[0], ast.Name) and lazy_call(n.value)]
     for ld in lazy_defs:
@@ -633,7 +1047,7 @@ def lazy_batch_rule(chk, rid, drv):
         chk.ob(rid, f"no source of the lazy batch `{nm}` is mutated before it is materialised", not muts, muts[0] if muts else ld,
                "" if not muts else f"`{short(source.enclosing_stmt(muts[0]), 60)}` runs while the chain has not been read yet: the carried-over samples vanish from this round's throughput",
                key=f"esrally/driver/driver.py:ThroughputCalculator.calculate:lazy-batch-sources:{nm}")
-    merges = [n for n in walk_body(calc) if lazy_call(n) and dotted(n.func) not in ("iter", "map", "filter", "zip")]
+    merges = [n for n in walk_body(calc) if lazy_call(n) and dotted(n.func) not in ("iter", "map", "filter", "zip", "reversed")]
     if lazy_defs or merges:
         chk.ob(rid, "merged batch located", True, calc, f"lazy locals: {sorted(n.targets[0].id for n in lazy_defs)}")
     else:
@@ -642,6 +1056,10 @@ def lazy_batch_rule(chk, rid, drv):
                  or (isinstance(n, (ast.List, ast.Tuple)) and any(isinstance(x, ast.Starred) for x in n.elts))]
         if eager:
             chk.ob(rid, "merged batch located", True, eager[0], "eager concatenation: no single-use iterator")
+        elif decided:
+            # the caller has decided on values that the batch handed to the per-task routine holds every new and every carried-over sample: whatever builds it, no single-use
+            # iterator is bound to a name in calculate()
+            chk.ob(rid, "merged batch located", True, calc, "no single-use iterator bound in calculate(); completeness of the batch decided on values")
         else:
             chk.unknown(rid, "no itertools.chain / eager concatenation of new and carried-over samples located in calculate()", calc)
 
@@ -992,6 +1410,7 @@ def run(chk):
         raise AnchorMissing(f"field(s) {missing} of class Sample (the vocabulary of the property)")
     A, TS, ctor, ctor_fn = _state_roles(drv, tm)
     sm = drv.methods(TS)
+    H.state_methods = sm
     M = _Model(TS, sm)
     try:
         # the sample types as the state's methods may spell them (metrics.SampleType.Warmup / Normal): members of the enum with their integer values
@@ -1053,6 +1472,12 @@ def run(chk):
         if isinstance(it, ast.Call) and dotted(it.func) == "enumerate" and len(it.args) == 1 and isinstance(it.args[0], ast.Name) and it.args[0].id in cparams \
                 and isinstance(tg, ast.Tuple) and len(tg.elts) == 2 and all(isinstance(x, ast.Name) for x in tg.elts):
             return it.args[0].id, tg.elts[1].id
+        # for i in range(len(batch)): sample = batch[i]
+        if isinstance(it, ast.Call) and dotted(it.func) == "range" and len(it.args) == 1 and not it.keywords and isinstance(tg, ast.Name) and pat.is_(it.args[0], "len(V_b)") \
+                and it.args[0].args[0].id in cparams and n.body and isinstance(n.body[0], ast.Assign) and len(n.body[0].targets) == 1 and isinstance(n.body[0].targets[0], ast.Name) \
+                and pat.is_(n.body[0].value, "V_b[V_i]", binds={"b": it.args[0].args[0].id, "i": tg.id}) \
+                and not any(isinstance(x, ast.Name) and x.id == tg.id and isinstance(x.ctx, ast.Store) for st in n.body for x in ast.walk(st)):
+            return it.args[0].args[0].id, n.body[0].targets[0].id
         return None
 
     loops = [n for n in walk_body(ctt) if sample_loop(n)]
@@ -1124,6 +1549,8 @@ def run(chk):
             if not in_loop(c):
                 continue
             fn = sm[c.func.attr]
+            if not _attrs_from_params(fn):
+                continue  # a method that stores nothing derived from its arguments (e.g. an expression helper that builds the emitted value) plays no updating role
             b = source.bind_args(c, fn)
             for p, a_ in b.items():
                 r = res(a_)
@@ -1165,6 +1592,10 @@ def run(chk):
         if isinstance(n, ast.Call) and isinstance(n.func, ast.Attribute) and n.func.attr == "append" and isinstance(n.func.value, ast.Attribute) and isinstance(n.func.value.value, ast.Name) \
                 and n.func.value.value.id == stats_var and len(n.args) == 1:
             keep_sites.append((n, n.func.value.attr, n.args[0]))
+        elif isinstance(n, ast.Call) and isinstance(n.func, ast.Attribute) and n.func.attr == "extend" and isinstance(n.func.value, ast.Attribute) and isinstance(n.func.value.value, ast.Name) \
+                and n.func.value.value.id == stats_var and len(n.args) == 1 and not n.keywords and isinstance(n.args[0], (ast.List, ast.Tuple)) and len(n.args[0].elts) == 1 \
+                and not isinstance(n.args[0].elts[0], ast.Starred):
+            keep_sites.append((n, n.func.value.attr, n.args[0].elts[0]))
         elif isinstance(n, ast.AugAssign) and isinstance(n.op, ast.Add) and isinstance(n.target, ast.Attribute) and isinstance(n.target.value, ast.Name) and n.target.value.id == stats_var \
                 and isinstance(n.value, (ast.List, ast.Tuple)) and len(n.value.elts) == 1:
             keep_sites.append((n, n.target.attr, n.value.elts[0]))
@@ -1227,7 +1658,8 @@ def run(chk):
         return out
 
     def show(r):
-        return "{" + ", ".join(f"{k_}={v_!r}" for k_, v_ in r.fields.items() if k_ in roles_ or (isinstance(v_, (int, float)) and not isinstance(v_, bool))) + "}"
+        return "{" + ", ".join(f"{k_}=" + (f"<{len(v_)} sample(s)>" if isinstance(v_, list) and v_ and all(isinstance(x, Record) for x in v_) else repr(v_))
+                               for k_, v_ in r.fields.items() if k_ in roles_ or (isinstance(v_, (int, float)) and not isinstance(v_, bool))) + "}"
 
     def pred_name(f_):
         """name of the state predicate (method without arguments, or property) a condition consists of, else None."""
@@ -1250,9 +1682,23 @@ def run(chk):
     if not cnt_inits:
         raise AnchorMissing("initialisation of the running count")
     ci = cnt_inits[0]
-    ok = len(cnt_inits) == 1 and isinstance(ci.value, ast.Attribute) and isinstance(ci.value.value, ast.Name) and ci.value.value.id == stats_var and ci.value.attr == tot \
-        and g.dominated_by_nodes(Lh, [g.node_of(ci)]) and not in_loop(ci)
-    chk.ob("O6.1", "count starts from the carried total", ok, ci, short(ci, 60))
+    placed = len(cnt_inits) == 1 and g.dominated_by_nodes(Lh, [g.node_of(ci)]) and not in_loop(ci)
+
+    def count_from_total():
+        """the initial value of the running count, evaluated on states with different carried totals (however it is read: attribute, getter, property, local)."""
+        e = res(ci.value)
+        for t0 in (7, 0, 42):
+            for r in variants(**{tot: t0, I: 2.5}):
+                r.fields[U] = [_sample(), _sample()]
+                got = M.ev(e, {stats_var: r, batch: [_sample(total_ops=3)], key_param: "t", "self": Record(**{A: {"t": r}})})
+                if got != t0:
+                    return False, f"`{short(ci, 60)}`: the count starts at {got!r} for a task whose carried total is {t0} ({show(r)})"
+        return True, short(ci, 60)
+
+    if placed:
+        _decide(chk, "O6.1", "count starts from the carried total", ci, count_from_total)
+    else:
+        chk.ob("O6.1", "count starts from the carried total", False, ci, f"{len(cnt_inits)} assignment(s) of `{cvar}`; `{short(ci, 60)}` does not run exactly once before the sample loop")
     adds = [n for n in walk_body(ctt) if isinstance(n, ast.AugAssign) and isinstance(n.target, ast.Name) and n.target.id == cvar]
     ok = len(adds) == 1 and isinstance(adds[0].op, ast.Add) and is_field(res(adds[0].value), svar, _OPS) and source.enclosing(adds[0], (ast.For, ast.While)) is L \
         and _every_iteration_passes(g, L, [g.node_of(adds[0])])
@@ -1268,7 +1714,22 @@ def run(chk):
     keep_in = [k for k in keep_sites if in_loop(k[0])]
     nodes = [g.node_of(c) for c in fin_in] + [g.node_of(k[0]) for k in keep_in]
     ok = bool(fin_in) and bool(keep_in) and _every_iteration_passes(g, L, nodes)
-    chk.ob("O6.1", "every iteration finishes a bucket or keeps the sample", ok, L, f"finish sites={len(fin_in)} keep sites={len(keep_in)}" + ("" if ok else "; an iteration can reach the back edge doing neither (sample lost)"))
+    # a place in the loop that hands the current sample to the state, to its pending list or to a helper in a way that is not one of the recognised keep forms: the sample may be
+    # kept there - "no keep site" is then "not recognised", not "the sample is lost"
+    maybe_keep = []
+    if not ok and not keep_in:
+        known_ = {id(c) for c in fin_in} | {id(c) for c in stat_calls if sm[c.func.attr] in (fb, ui, mu)}
+        for n in ast.walk(L):
+            if isinstance(n, ast.Call) and id(n) not in known_ and not is_logging_call(n):
+                args_ = list(n.args) + [k.value for k in n.keywords]
+                hands_sample = any((isinstance(a_, ast.Name) and a_.id == svar) or (isinstance(a_, (ast.List, ast.Tuple)) and any(isinstance(x, ast.Name) and x.id == svar for x in a_.elts)) for a_ in args_)
+                to_state = on_stats(n) or H.callee(n) is not None or (isinstance(n.func, ast.Attribute) and any(isinstance(x, ast.Name) and x.id == stats_var for x in ast.walk(n.func.value)))
+                if hands_sample and to_state:
+                    maybe_keep.append(n)
+    if maybe_keep:
+        chk.unknown("O6.1", f"no recognised keep site in the sample loop, but `{short(maybe_keep[0], 60)}` hands the current sample on: whether a sample that completes no bucket is kept was not recognised", maybe_keep[0])
+    else:
+        chk.ob("O6.1", "every iteration finishes a bucket or keeps the sample", ok, L, f"finish sites={len(fin_in)} keep sites={len(keep_in)}" + ("" if ok else "; an iteration can reach the back edge doing neither (sample lost)"))
     both = any(g.path_exists(g.node_of(a), g.node_of(b[0]), avoid=[Lh]) or g.path_exists(g.node_of(b[0]), g.node_of(a), avoid=[Lh]) for a in fin_in for b in keep_in)
     chk.ob("O6.1", "never both in one iteration", not both, keep_in[0][0] if keep_in else L, "finish and keep are on disjoint paths" if not both else "a sample can be counted in the carried total AND kept as unprocessed")
     for c, _, arg in keep_in:
@@ -1328,6 +1789,12 @@ def run(chk):
                         if attr == U and fn is ctt and isinstance(n, ast.Assign) and _empty_list(n.value) and not in_loop(n) and g.dominated_by_nodes(Lh, [g.node_of(n)]):
                             chk.ob("O6.1", "unprocessed cleared once merged (before the loop)", True, n, short(n, 60))
                             continue
+                        if attr == U and fn is calc and isinstance(n, ast.Assign) and _empty_list(n.value) and len(n.targets) == 1 and isinstance(n.targets[0], ast.Attribute) \
+                                and _denotes_state(n.targets[0].value, calc, A):
+                            # the task's pending list is re-bound to a fresh list in calculate(), next to the merge (that the carried-over samples have reached the batch by then
+                            # is the merge obligation, decided on values: a lazy chain keeps reading the old list)
+                            chk.ob("O6.1", "unprocessed cleared once merged (at the merge site)", True, n, short(n, 60))
+                            continue
                         chk.ob("O6.1", f"{attr} written outside the bucket-finishing routine", False, n,
                                f"{short(n, 60)} — carried total and unprocessed must change together (conservation)")
     # merged into next batch: calculate() combines the new samples with <state>.<pending> whenever the task has state
@@ -1358,7 +1825,83 @@ def run(chk):
         return next((a_ for a_ in source.ancestors(x) if (isinstance(a_, ast.Call) and last_attr(a_.func) == "chain") or (isinstance(a_, ast.BinOp) and isinstance(a_.op, ast.Add))
                      or (isinstance(a_, (ast.List, ast.Tuple)) and any(isinstance(y, ast.Starred) for y in a_.elts))), None)
 
-    if pend:
+    # Decided on VALUES first: calculate() is interpreted statement by statement (grouping, merge, sort, dispatch; helpers it calls included) with the two per-task routines
+    # stubbed, for a task that has carried-over samples, a task that has state but nothing pending and a task seen for the first time. What reaches the per-task routine is the
+    # batch - however it was put together (chain + sort, sort + heapq.merge, concatenation, a conditional expression, an extracted helper ...). The carried-over samples are in
+    # time order (they were appended in the order of a sorted batch - "the kept element is the current sample" - to a list that was empty before the loop), the new ones arrive in
+    # any order; relative_time and time_period run against absolute_time so that a sort by the wrong field shows.
+    sp = params_of(calc)[1] if len(params_of(calc)) > 1 else None
+    MC = _Model(TC, tm)
+    MC.funcs = M.funcs = H.funcs
+    MC.globals = dict(M.globals)
+
+    def calculator():
+        """a record that stands for a fresh calculator: the statements of __init__ that can be interpreted are (a logger, a clock ... are left out), the per-task table is empty."""
+        me = Record()
+        me._model = MC
+        init = tm.get("__init__")
+        if init is not None and len(params_of(init)) == 1:
+            for st in init.body:
+                try:
+                    MC.run([st], {params_of(init)[0]: me, **MC.globals})
+                except (CannotEval, _Ret, _Jump, TypeError, ValueError, KeyError, AttributeError, IndexError, ZeroDivisionError):
+                    pass
+        me.fields[A] = {}
+        return me
+
+    def handed_over(state, new):
+        """[(routine, {parameter: value})]: what calculate() hands to the per-task routines when the calculator holds `state` ({task: state record}) and receives `new`."""
+        seen = []
+
+        def stub(fn_):
+            def f(b_):
+                seen.append((fn_, b_))
+                return []
+            return f
+
+        me = calculator()
+        me.fields[A] = dict(state)
+        MC.stubs = {ctt.name: stub(ctt), mtt.name: stub(mtt)}
+        try:
+            MC.call(me, calc.name, new)
+        finally:
+            MC.stubs = {}
+        return seen
+
+    def batch_scenarios():
+        if sp is None:
+            raise CannotEval("calculate() takes no batch of samples")
+        out = []
+        for name, pend_ in (("a task with two carried-over samples", [(3.0, 9.0, 1.0), (6.0, 4.0, 0.7)]), ("a task that has state and nothing carried over", []), ("a task seen for the first time", None)):
+            task_ = _Task(name="t")
+            old_ = [_sample(task=task_, absolute_time=a_, relative_time=r_, time_period=p_) for a_, r_, p_ in pend_ or []]
+            new_ = [_sample(task=task_, absolute_time=a_, relative_time=r_, time_period=p_) for a_, r_, p_ in ((8.0, 1.0, 7.0), (5.0, 6.0, 0.3), (7.0, 2.0, 0.5))]
+            seen = handed_over({} if pend_ is None else {task_: fresh(**{U: list(old_)})}, list(new_))
+            got = [v_ for fn_, b_ in seen for p_, v_ in b_.items() if (p_ == batch if fn_ is ctt else isinstance(v_, (list, tuple, _Iter)))]
+            if len(got) != 1 or not isinstance(got[0], (list, tuple)) or not all(isinstance(x, Record) and _ABS in x.fields for x in got[0]):
+                raise CannotEval(f"calculate() hands {len(got)} batch(es) to {ctt.name} / {mtt.name} for {name}" if len(got) != 1 else f"the batch handed over for {name} is not a list of samples")
+            out.append((name, old_, new_, list(got[0])))
+        return out
+
+    sc, sc_why = None, ""
+    try:
+        sc = batch_scenarios()
+    except (CannotEval, RecursionError, ZeroDivisionError, TypeError, ValueError, KeyError, AttributeError, IndexError) as x:
+        sc_why = f"{type(x).__name__}: {str(x)[:100]}"
+    if sc is not None:
+        ok, detail = True, "every carried-over and every new sample reaches the per-task routine exactly once (task with carried-over samples, with state only, new task)"
+        for name, old_, new_, got in sc:
+            for what, items in (("carried-over", old_), ("new", new_)):
+                for s_ in items:
+                    k_ = sum(1 for x in got if x is s_)
+                    if k_ != 1 and ok:
+                        ok, detail = False, (f"{name}: the {what} sample at t={s_.fields[_ABS]} occurs {k_} times in the batch of {len(got)} handed to the per-task routine "
+                                             f"({len(old_)} carried over + {len(new_)} new): " + ("its operations are never counted" if k_ == 0 else "its operations are counted more than once"))
+            if ok and len(got) != len(old_) + len(new_):
+                ok, detail = False, f"{name}: the batch handed to the per-task routine has {len(got)} elements for {len(old_)} carried-over + {len(new_)} new samples"
+        chk.ob("O6.1", "unprocessed merged into the next batch when the task has state", ok, pend[0] if pend and mscope is calc else direct[ctt.name][0], detail,
+               key=f"{_D}:ThroughputCalculator.calculate:carried-over-samples-merged-into-the-batch")
+    elif pend:
         m = pend[0]
         combo, use = combo_of(m), m
         st_ = source.enclosing_stmt(m)
@@ -1425,7 +1968,14 @@ def run(chk):
     in_place = next((n for n in walk_body(calc) if isinstance(bexpr, ast.Name) and isinstance(n, ast.Call) and isinstance(n.func, ast.Attribute) and n.func.attr == "sort" and isinstance(n.func.value, ast.Name)
                      and n.func.value.id == bexpr.id), None)
     sorts = [in_place] * len(bvals) if in_place is not None else [v if isinstance(v, ast.Call) and dotted(v.func) == "sorted" else None for v in bvals]
-    if not bvals or any(sc is None and any(isinstance(x, ast.Call) and dotted(x.func) not in ("list", "tuple", "itertools.chain", "chain") for x in ast.walk(v)) for sc, v in zip(sorts, bvals)):
+    if sc is not None:
+        ok, detail = True, "ascending absolute_time in all three scenarios (new samples arriving out of order, carried-over samples in between)"
+        for name, old_, new_, got in sc:
+            ts = [x.fields[_ABS] for x in got]
+            if ts != sorted(ts) and ok:
+                ok, detail = False, f"{name}: the per-task routine receives the samples in the order t={ts} (new samples arrived as t={[x.fields[_ABS] for x in new_]}, carried over: t={[x.fields[_ABS] for x in old_]})"
+        chk.ob("O6.1", "batch sorted by absolute time", ok, c0, detail, key=f"{_D}:ThroughputCalculator.calculate:batch-sorted-by-absolute-time")
+    elif not bvals or any(sc is None and any(isinstance(x, ast.Call) and dotted(x.func) not in ("list", "tuple", "itertools.chain", "chain") for x in ast.walk(v)) for sc, v in zip(sorts, bvals)):
         chk.unknown("O6.1", f"the batch handed to {ctt.name} is `{short(bexpr, 60)}`: cannot tell whether it is sorted by time", c0)
     else:
         def sorted_by_time():
@@ -1460,7 +2010,7 @@ def run(chk):
         b_site = in_place if in_place is not None else (cdefs[batch_arg.id] if isinstance(batch_arg, ast.Name) and batch_arg.id in cdefs else
                                                         next((n.value for n in walk_body(calc) if isinstance(bexpr, ast.Name) and isinstance(n, ast.Assign) and any(isinstance(t, ast.Name) and t.id == bexpr.id for t in n.targets)), batch_arg))
         _decide(chk, "O6.1", "batch sorted by absolute time", b_site, sorted_by_time)
-    lazy_batch_rule(chk, "O6.1", drv)
+    lazy_batch_rule(chk, "O6.1", drv, decided=sc is not None)
     # every sample of the batch lands in its task's group, wherever it stands in the batch (samples of several tasks / workers are interleaved): the grouping loop appends each
     # sample unconditionally; itertools.groupby only groups CONSECUTIVE elements and is accepted only over input sorted by the same key
     sp = params_of(calc)[1]
@@ -1471,7 +2021,7 @@ def run(chk):
             for p, a_ in source.bind_args(c, fn).items():
                 if isinstance(a_, ast.Name) and a_.id == sp:
                     scopes.append((fn, p))
-    ok, site, detail, located = False, calc, "no loop over the batch that appends each sample to its task's group", False
+    ok, site, detail, located, skips = False, calc, "no loop over the batch that appends each sample to its task's group", False, False
     for fn, p in scopes:
         gg = cfg_of(fn)
         for lp in [n for n in walk_body(fn) if isinstance(n, ast.For) and isinstance(n.iter, ast.Name) and n.iter.id == p and isinstance(n.target, ast.Name)]:
@@ -1492,14 +2042,59 @@ def run(chk):
             located = True
             ok = len(apps_) == 1 and _every_iteration_passes(gg, lp, [gg.node_of(apps_[0])]) and source.inline(group_key(apps_[0].func.value), gdefs) == f"{sv_}.task" \
                 and not any(isinstance(x, (ast.Break, ast.Return)) for x in ast.walk(lp))
+            # some way through an iteration appends the sample to no group at all (or the loop can end early)
+            opens_ = [n for n in ast.walk(lp) if isinstance(n, ast.Assign) and any(isinstance(t, ast.Subscript) for t in n.targets) and isinstance(n.value, (ast.List, ast.Tuple))
+                      and any(u(source.inline_node(x, gdefs)) == sv_ for x in n.value.elts)]
+            skips = not _every_iteration_passes(gg, lp, [gg.node_of(a_) for a_ in apps_ + opens_]) or any(isinstance(x, (ast.Break, ast.Return)) for x in ast.walk(lp))
             site, detail = lp, short(apps_[0], 60)
     gb = [c for c in ast.walk(calc) if isinstance(c, ast.Call) and dotted(c.func) in ("itertools.groupby", "groupby")]
+    gb_unclear = False
     if gb and not ok:
-        srt_in = gb[0].args and isinstance(gb[0].args[0], ast.Call) and dotted(gb[0].args[0].func) == "sorted" and u(source.arg_of(gb[0].args[0], None, "key")) == u(source.arg_of(gb[0], 1, "key"))
+        g_in = source.inline_node(gb[0].args[0], local_defs(calc)) if gb[0].args else None
+        g_sorted = isinstance(g_in, ast.Call) and dotted(g_in.func) == "sorted"
+        srt_in = g_sorted and u(source.arg_of(g_in, None, "key")) == u(source.arg_of(gb[0], 1, "key"))
+        # sorted by ANOTHER key (e.g. the task's name): whether equal group keys end up next to each other is not visible in the spelling
+        gb_unclear = bool(g_sorted and not srt_in) or not (g_sorted or (isinstance(g_in, ast.Name) and g_in.id == sp))
         ok, located, site = bool(srt_in), True, gb[0]
         detail = short(gb[0], 70) + ("" if ok else " — groupby over the batch in arrival order: a later run of the same task overwrites the earlier one, those samples are never counted")
-    if located:
-        chk.ob("O6.1", "grouping by task keeps every sample of the batch (interleaved tasks included)", ok, site, detail, key=f"{_D}:ThroughputCalculator.calculate:grouping-keeps-every-sample")
+    # decided on VALUES where calculate() can be interpreted: the samples of two new tasks, interleaved, differing in every field a filter might look at (a request with 0
+    # operations, both sample types, several clients, zero and non-zero periods); every one of them must reach the per-task routines exactly once, in a batch of its own task
+    def grouping_on_values():
+        spec = (("t", 1.0, 5, 0, 0), ("u", 2.0, 100000, 1, 7), ("t", 3.0, 0, 0, 1), ("u", 4.0, 1, 1, 0), ("t", 5.0, 5, 1, 7))
+        tasks_by_name = {"t": _Task(name="t"), "u": _Task(name="u")}
+        stream = [_sample(task=tasks_by_name[t_], absolute_time=a_, relative_time=a_ - 1.0, total_ops=o_, sample_type=y_, client_id=c_, time_period=0.0 if i_ == 0 else 0.5) for i_, (t_, a_, o_, y_, c_) in enumerate(spec)]
+        seen = handed_over({}, list(stream))
+        bs = [(b_.get(key_param) if fn_ is ctt else None, v_) for fn_, b_ in seen for p_, v_ in b_.items() if (p_ == batch if fn_ is ctt else isinstance(v_, (list, tuple, _Iter)))]
+        if not bs or any(not isinstance(v_, (list, tuple)) or not all(isinstance(x, Record) and "task" in x.fields for x in v_) for _, v_ in bs):
+            raise CannotEval("the batches handed to the per-task routines are not lists of samples")
+        for s_ in stream:
+            k_ = sum(1 for _, v_ in bs for x in v_ if x is s_)
+            if k_ != 1:
+                return False, (f"of five interleaved samples of two tasks the one of task {s_.fields['task']!r} at t={s_.fields[_ABS]} ({s_.fields[_OPS]} ops) reaches the per-task routines "
+                               f"{k_} times: " + ("its operations are never counted" if k_ == 0 else "its operations are counted more than once"))
+        for k_, v_ in bs:
+            tasks_ = {x.fields["task"] for x in v_}
+            if len(tasks_) > 1 or (k_ is not None and tasks_ and k_ not in tasks_):
+                return False, f"a batch with samples of task(s) {sorted(tasks_)} is handed to the per-task routine" + (f" under the key {k_!r}" if k_ is not None else "")
+        return True, f"five interleaved samples of two tasks reach the per-task routines exactly once each, grouped by task ({detail if located else 'decided on values'})"
+
+    gv = None
+    try:
+        gv = grouping_on_values()
+    except (CannotEval, RecursionError, ZeroDivisionError, TypeError, ValueError, KeyError, AttributeError, IndexError):
+        pass
+    gkey = f"{_D}:ThroughputCalculator.calculate:grouping-keeps-every-sample"
+    if gv is not None and not gv[0]:
+        chk.ob("O6.1", "grouping by task keeps every sample of the batch (interleaved tasks included)", False, site, gv[1], key=gkey)
+    elif gv is not None and (ok or not located or not skips):
+        chk.ob("O6.1", "grouping by task keeps every sample of the batch (interleaved tasks included)", True, site, gv[1], key=gkey)
+    elif gv is not None:
+        chk.unknown("O6.1", f"the grouping loop `{short(site, 50)}` has a way through an iteration that puts the sample into no group; the representative samples were all grouped: "
+                            "the condition was not recognised", site)
+    elif located and gb_unclear and not ok:
+        chk.unknown("O6.1", f"`{short(site, 70)}`: whether the input of groupby is ordered by the grouping key was not recognised", site)
+    elif located:
+        chk.ob("O6.1", "grouping by task keeps every sample of the batch (interleaved tasks included)", ok, site, detail, key=gkey)
     else:
         chk.unknown("O6.1", "the place where calculate() groups the samples of the batch by task was not recognised (loop that appends each sample to the group of <sample>.task, or groupby)", calc)
     # the per-task state (carried total, start time, sticky sample type) lives as long as the calculator: entries are created on first sight and never removed
@@ -1826,7 +2421,39 @@ def run(chk):
             gm = cfg_of(mtt)
             ok = lp is not None and source.enclosing_func(lp) is mtt and len(mloops) == 1 and isinstance(lp.iter, ast.Name) and lp.iter.id in mbatch and _every_iteration_passes(gm, lp, [gm.node_of(e.node)]) \
                 and not any(isinstance(x, (ast.Break, ast.Return)) for x in ast.walk(lp))
-    chk.ob("O6.4", "pass-through emits one value per sample", ok, mtt, "")
+    # a way through the pass-through routine that produces no value for some sample (filter in the comprehension, conditional append, early exit)
+    filtered = any(isinstance(e_.node, (ast.ListComp, ast.GeneratorExp)) and any(gen.ifs for gen in e_.node.generators) for e_ in memits) \
+        or any(isinstance(x, (ast.Break, ast.Continue)) for x in ast.walk(mtt)) or len([x for x in walk_body(mtt) if isinstance(x, ast.Return)]) > 1 \
+        or any(source.enclosing(e_.node, ast.For) is not None and not _every_iteration_passes(cfg_of(mtt), source.enclosing(e_.node, ast.For), [cfg_of(mtt).node_of(e_.node)])
+               for e_ in memits if not isinstance(e_.node, (ast.ListComp, ast.GeneratorExp)))
+
+    def one_value_per_sample():
+        """the pass-through routine interpreted on batches whose samples differ in everything a filter might look at (runner throughput 0 / 0.0 / None of a failed request)."""
+        MC.record_tuple = H.record_tuple
+        for tps in ((15000.0, 0, 0.0), (None, 3.5), (2.0,), ()):
+            b_ = [_sample(throughput=v_, absolute_time=20.0 + i_, relative_time=float(i_), total_ops=(0 if i_ == 1 else 5), sample_type=i_ % 2, client_id=i_) for i_, v_ in enumerate(tps)]
+            out = MC.call(calculator(), mtt.name, list(b_))
+            out = _elements(out)
+            if len(out) != len(b_):
+                return False, f"{mtt.name} returns {len(out)} value(s) for a batch of {len(b_)} samples with runner throughput {list(tps)}"
+            for s_, t_ in zip(b_, out):
+                if not (isinstance(t_, tuple) and len(t_) == 5 and t_[0] == s_.fields[_ABS]):
+                    return False, f"{mtt.name}: the value for the sample at t={s_.fields[_ABS]} is {t_!r}: not a 5-tuple stamped with that sample's time, in the order of the batch"
+        return True, "one value per sample, in batch order, for runner throughput 15000.0 / 0 / 0.0 / None and an empty batch"
+
+    pv = None
+    try:
+        pv = one_value_per_sample()
+    except (CannotEval, RecursionError, ZeroDivisionError, TypeError, ValueError, KeyError, AttributeError, IndexError):
+        pass
+    if pv is not None and not pv[0]:
+        chk.ob("O6.4", "pass-through emits one value per sample", False, mtt, pv[1])
+    elif ok or (pv is not None and not filtered):
+        chk.ob("O6.4", "pass-through emits one value per sample", True, mtt, pv[1] if pv is not None else "")
+    elif filtered and pv is None:
+        chk.ob("O6.4", "pass-through emits one value per sample", False, mtt, "a way through the routine produces no value for a sample (filter / conditional append / early exit)")
+    else:
+        chk.unknown("O6.4", f"whether {mtt.name} produces one value per sample was not recognised" + (" (a condition decides whether a sample gets a value; the representative samples all did)" if filtered else ""), mtt)
     for e in memits:
         t5 = e.elts
         ok = isinstance(t5[3], ast.Attribute) and t5[3].attr == tp_field and isinstance(t5[3].value, ast.Name) and t5[3].value.id in mvars
@@ -2207,3 +2834,106 @@ _var("defect in a refactored shape: has-value flag set only when the count is po
      [("            self.has_samples_in_sample_type = True\n", "            self.has_samples_in_sample_type = new_total > 0\n")])
 _var("refactored: finish stores the total behind a test that always holds", "keep", None,
      [("            self.total_count = new_total\n", "            if new_total >= self.total_count:\n                self.total_count = new_total\n")])
+
+
+# ---- hardening round 3: the merge / sort of calculate() is decided on VALUES (calculate() interpreted with the per-task routines stubbed), tuple-like record classes are tuples
+_SORT_OLD = "            current_samples = sorted(samples, key=lambda s: s.absolute_time)\n"
+_KEY_DEF = ("        global_throughput = {}\n", "        def absolute_time(sample):\n            return sample.absolute_time\n\n        global_throughput = {}\n")
+_var("refactored: new samples sorted, carried-over ones merged in with heapq.merge", "keep", None,
+     [(_MERGE_OLD, "            current_samples = sorted(v, key=absolute_time)\n            if task in self.task_stats and self.task_stats[task].unprocessed:\n"
+                   "                current_samples = list(heapq.merge(current_samples, self.task_stats[task].unprocessed, key=absolute_time))\n"),
+      _KEY_DEF, ("import itertools\n", "import heapq\nimport itertools\n")])
+_var("defect in a refactored shape: heapq.merge over the new samples in arrival order", "break", "O6.1",
+     [(_MERGE_OLD, "            current_samples = list(v)\n            if task in self.task_stats and self.task_stats[task].unprocessed:\n"
+                   "                current_samples = list(heapq.merge(current_samples, self.task_stats[task].unprocessed, key=absolute_time))\n"
+                   "            else:\n                current_samples.sort(key=absolute_time)\n"),
+      _KEY_DEF, ("import itertools\n", "import heapq\nimport itertools\n")])
+_var("defect in a refactored shape: carried-over samples replace the new ones instead of being merged", "break", "O6.1",
+     [(_MERGE_OLD, "            current_samples = sorted(v, key=absolute_time)\n            if task in self.task_stats and self.task_stats[task].unprocessed:\n"
+                   "                current_samples = list(self.task_stats[task].unprocessed)\n"),
+      _KEY_DEF])
+_var("refactored: carry-over chosen by a conditional expression, one chain", "keep", None,
+     [(_MERGE_OLD, "            carried_over = self.task_stats[task].unprocessed if task in self.task_stats else []\n"
+                   "            current_samples = sorted(itertools.chain(v, carried_over), key=lambda s: s.absolute_time)\n")])
+_var("defect in a refactored shape: conditional carry-over computed but never chained", "break", "O6.1",
+     [(_MERGE_OLD, "            carried_over = self.task_stats[task].unprocessed if task in self.task_stats else []\n"
+                   "            current_samples = sorted(v, key=lambda s: s.absolute_time)\n")])
+_var("defect in a refactored shape: conditional carry-over chained twice", "break", "O6.1",
+     [(_MERGE_OLD, "            carried_over = self.task_stats[task].unprocessed if task in self.task_stats else []\n"
+                   "            current_samples = sorted(itertools.chain(carried_over, v, carried_over), key=lambda s: s.absolute_time)\n")])
+_var("refactored: state looked up once with a walrus, eager concatenation sorted in place", "keep", None,
+     [(_MERGE_OLD, "            current_samples = list(v)\n            if (known := self.task_stats.get(task)) is not None:\n                current_samples += known.unprocessed\n"
+                   "            current_samples.sort(key=lambda s: s.absolute_time)\n")])
+_var("defect in a refactored shape: in-place sort in descending order", "break", "O6.1",
+     [(_MERGE_OLD, "            current_samples = list(v)\n            if (known := self.task_stats.get(task)) is not None:\n                current_samples += known.unprocessed\n"
+                   "            current_samples.sort(key=lambda s: s.absolute_time, reverse=True)\n")])
+_var("refactored: sort key is a tuple led by the absolute time", "keep", None, [("key=lambda s: s.absolute_time", "key=lambda s: (s.absolute_time, s.client_id)")])
+
+_NT_CLASS = ("class ThroughputCalculator:\n", '''class ThroughputSample(NamedTuple):
+    absolute_time: float
+    relative_time: float
+    sample_type: metrics.SampleType
+    value: float
+    unit: str
+
+
+class ThroughputCalculator:
+''')
+_NT_IMPORT = ("from typing import Callable, Optional\n", "from typing import Callable, NamedTuple, Optional\n")
+
+
+def _nt(text, indent):
+    return text.replace("(\n" + indent + "(\n", "(\n" + indent + "ThroughputSample(\n", 1)
+
+
+_NT_EDITS = [(_EMIT1, _nt(_EMIT1, " " * 20)), (_EMIT2, _nt(_EMIT2, " " * 16)), (_MTT_OLD, _nt(_MTT_OLD, " " * 16)), _NT_CLASS, _NT_IMPORT]
+_var("refactored: the emitted 5-tuples are a NamedTuple", "keep", None, _NT_EDITS)
+_NT_KW = '''                task_throughput.append(
+                    ThroughputSample(
+                        unit=f"{sample.total_ops_unit}/s",
+                        value=current.throughput,
+                        sample_type=current.sample_type,
+                        relative_time=sample.relative_time,
+                        absolute_time=sample.absolute_time,
+                    )
+                )
+'''
+_var("refactored: NamedTuple built with keyword arguments in another order", "keep", None, [(_EMIT1, _NT_KW)] + _NT_EDITS[1:])
+_var("defect in a refactored shape: NamedTuple fields declared in another order than the consumer unpacks", "break", "O6.",
+     [(_EMIT1, _NT_KW)] + _NT_EDITS[1:3] + [(_NT_CLASS[0], _NT_CLASS[1].replace("    sample_type: metrics.SampleType\n    value: float\n", "    value: float\n    sample_type: metrics.SampleType\n")), _NT_IMPORT])
+_var("defect in a refactored shape: NamedTuple built with the sample's own type", "break", "O6.3",
+     [(_EMIT1, _NT_KW.replace("sample_type=current.sample_type", "sample_type=sample.sample_type"))] + _NT_EDITS[1:])
+_var("refactored: grouping with a two-armed if (first sample starts the list)", "keep", None,
+     [(_GROUP_OLD, "            if sample.task in samples_per_task:\n                samples_per_task[sample.task].append(sample)\n            else:\n                samples_per_task[sample.task] = [sample]\n")])
+_var("refactored: grouping with groupby over the batch sorted by task name", "keep", None,
+     [("        for sample in samples:\n" + _GROUP_OLD, "        for k, members in itertools.groupby(sorted(samples, key=lambda s: s.task.name), key=lambda s: s.task):\n            samples_per_task[k] = list(members)\n")])
+_var("defect in a refactored shape: two-armed grouping forgets the sample that opens a group", "break", "O6.1",
+     [(_GROUP_OLD, "            if sample.task in samples_per_task:\n                samples_per_task[sample.task].append(sample)\n            else:\n                samples_per_task[sample.task] = []\n")])
+_var("refactored: pass-through loop with enumerate", "keep", None, [("        throughput = []\n        for sample in current_samples:\n            throughput.append(", "        throughput = []\n        for _idx, sample in enumerate(current_samples):\n            throughput.append(")])
+_var("defect in a refactored shape: pass-through loop skips the first sample", "break", "O6.4",
+     [("        throughput = []\n        for sample in current_samples:\n            throughput.append(", "        throughput = []\n        for sample in current_samples[1:]:\n            throughput.append(")])
+_var("refactored: running count starts from a getter of the state", "keep", None,
+     [("        count = current.total_count\n", "        count = current.carried()\n"), ("        def finish_bucket(self, new_total):", "        def carried(self):\n            return self.total_count\n\n        def finish_bucket(self, new_total):")])
+_var("defect in a refactored shape: getter hands out the pending count instead of the carried total", "break", "O6.1",
+     [("        count = current.total_count\n", "        count = current.carried()\n"), ("        def finish_bucket(self, new_total):", "        def carried(self):\n            return len(self.unprocessed)\n\n        def finish_bucket(self, new_total):")])
+_var("refactored: sample kept with extend([sample])", "keep", None, [("                current.unprocessed.append(sample)", "                current.unprocessed.extend([sample])")])
+_STATE_EMIT = [(_EMIT1, "                task_throughput.append(current.value_at(sample))\n"), (_EMIT2, "            task_throughput.append(current.value_at(last_sample))\n")]
+_STATE_EMIT_DEF = '''        def value_at(self, sample):
+            return (sample.absolute_time, sample.relative_time, self.sample_type, self.throughput, f"{sample.total_ops_unit}/s")
+
+        def finish_bucket(self, new_total):'''
+_var("refactored: the emitted tuple is built by a method of the per-task state", "keep", None, _STATE_EMIT + [("        def finish_bucket(self, new_total):", _STATE_EMIT_DEF)])
+_var("defect in a refactored shape: state method stamps the value with the sample's own type", "break", "O6.3",
+     _STATE_EMIT + [("        def finish_bucket(self, new_total):", _STATE_EMIT_DEF.replace("self.sample_type, self.throughput", "sample.sample_type, self.throughput"))])
+_var("defect in a refactored shape: state method reports the carried total instead of the throughput", "break", "O6.5",
+     _STATE_EMIT + [("        def finish_bucket(self, new_total):", _STATE_EMIT_DEF.replace("self.sample_type, self.throughput", "self.sample_type, self.total_count"))])
+_CLEAR_OLD = "        # samples carried over from the previous invocation are already contained in current_samples\n        current.unprocessed = []\n"
+_var("refactored: pending list re-bound at the merge site (eager concatenation)", "keep", None,
+     [("                samples = itertools.chain(v, self.task_stats[task].unprocessed)\n", "                samples = v + self.task_stats[task].unprocessed\n                self.task_stats[task].unprocessed = []\n"), (_CLEAR_OLD, "")])
+_var("defect in a refactored shape: pending list emptied in place while the lazy chain has not read it", "break", "O6.1",
+     [("                samples = itertools.chain(v, self.task_stats[task].unprocessed)\n", "                samples = itertools.chain(v, self.task_stats[task].unprocessed)\n                self.task_stats[task].unprocessed.clear()\n"), (_CLEAR_OLD, "")])
+_var("refactored: sample loop over an index", "keep", None,
+     [("        for sample in current_samples:\n            last_sample = sample\n", "        for idx in range(len(current_samples)):\n            sample = current_samples[idx]\n            last_sample = sample\n")])
+_var("refactored: calculator counts the samples it has seen (additive)", "keep", None,
+     [("    def __init__(self):\n        self.task_stats = {}\n", "    def __init__(self):\n        self.task_stats = {}\n        self.samples_seen = 0\n        self.logger = logging.getLogger(__name__)\n"),
+      ("        samples_per_task = {}\n", "        samples_per_task = {}\n        self.samples_seen += len(samples)\n        self.logger.debug(\"Calculating throughput for [%d] samples.\", len(samples))\n")])
